@@ -43,6 +43,47 @@ def _check_split(res, sig, want):
                       'Method/Signal declared with %r count %r arguments, '
                       'the signature has %d' % (sig, counts, len(want)), rep,
                       size=len(sig))
+        return
+    if len(sig) > 12 and len(sig) % 3:
+        return
+    # the same Method / Signal objects as members of a second interface;
+    # taken out of the first and put back: the counts stay what the
+    # signature says, for both interfaces, at every step
+    try:
+        j = I.DBusInterface('org.verif.U', m, s, noRegister=True)
+        steps = []
+        for step, fn in (('shared', lambda: None),
+                         ('removed-from-first', lambda: (i.delMethod('m'),
+                                                         i.delSignal('s'))),
+                         ('added-back', lambda: (i.addMethod(m),
+                                                 i.addSignal(s))),
+                         ('removed-from-second', lambda: (j.delMethod('m'),
+                                                          j.delSignal('s')))):
+            fn()
+            res.count('transitions')
+            for holder in (i, j):
+                mm = holder.methods.get('m')
+                ss = holder.signals.get('s')
+                got2 = ((mm.nargs, mm.nret) if mm is not None else None,
+                        ss.nargs if ss is not None else None)
+                want2 = ((len(want), len(want)) if mm is not None else None,
+                         len(want) if ss is not None else None)
+                if got2 != want2:
+                    steps.append((step, holder.name, got2))
+        if steps:
+            res.violation('%s/argcount-shared/%s' % (PROP, steps[0][0]),
+                          'a Method and a Signal with signature %r that are '
+                          'members of two interfaces: after the step %r the '
+                          'counts seen through %s are %r (the signature has '
+                          '%d complete types)' % (sig, steps[0][0],
+                                                  steps[0][1], steps[0][2],
+                                                  len(want)), rep,
+                          size=len(sig))
+    except Exception as e:
+        res.violation('%s/argcount-shared/raises-%s' % (PROP,
+                                                        type(e).__name__),
+                      'sharing / removing / re-adding members with signature '
+                      '%r raised %r' % (sig, e), rep, size=len(sig))
 
 
 def _task_split(task):
